@@ -288,3 +288,390 @@ def helper_series(chk, repo, rule, seed):
             bad.append(f'terms beyond z^{2 * N2} present')
         chk.ob(rule, f'legacy takeuchi_phi_psi: {nm} series == Bessel series through z^{2 * N2}, symbolic l', not bad, 'coefficients differ at ' + ', '.join(bad), mod.where(fp),
                key=f'{rule}|legacy takeuchi_phi_psi|{nm}', method='pinned GF(p^2) PIT on Taylor coefficients')
+
+
+# ---------------------------------------------------------------------------------------------- surface conditions
+class _Inv:
+    def __init__(self, M): self.M = M
+
+
+def surface(chk, repo, d, rule):
+    """legacy surface_condition.py: each function solves  sum_s C_s y_c(solution s) = requested value  for the constrained components c of its layer kind
+    (np.linalg.inv(M) @ b is captured, not evaluated: the system that is solved is what is decided)"""
+    from ..core.interp import Builtin
+    mod = repo.by_path('TidalPy/radial_solver/numerical/collapse/surface_condition.py')
+    pi = None
+    G = X.atom('G', 'pos'); g = X.atom('g_surf', 'pos')
+    cases = [('solid_surface', 'solid', False, ['y2', 'y4', 'y6']), ('dynamic_liquid_surface', 'liquid', False, ['y2', 'y6']), ('static_liquid_surface', 'liquid', True, ['y7'])]
+    slot = {('solid', False): {'y1': 0, 'y2': 1, 'y3': 2, 'y4': 3, 'y5': 4, 'y6': 5}, ('liquid', False): {'y1': 0, 'y2': 1, 'y5': 2, 'y6': 3}, ('liquid', True): {'y5': 0, 'y7': 1}}
+    for fname, kind, static, comps in cases:
+        f = need_func(mod, fname)
+        solved = []
+
+        def call_hook(itp, fn_, args, kwargs, e, fr):
+            if isinstance(fn_, Builtin):
+                nm = fn_.name.split('.')[-1]
+                if nm in ('asarray', 'array'):
+                    return args[0]
+                if nm == 'inv':
+                    return _Inv(args[0])
+            return NotImplemented
+
+        def expr_hook(itp, e, fr):
+            if isinstance(e, ast.BinOp) and isinstance(e.op, ast.MatMult):
+                lft = itp.eval(e.left, fr); rgt = itp.eval(e.right, fr)
+                if isinstance(lft, _Inv):
+                    solved.append((lft.M, rgt))
+                    return Arr('C_vector', default=lambda k: X.atom(f'C[{k}]', 'complex'))
+                raise AnalysisError(f'{fr.mod.where(e)}: matrix product that is not inv(M) @ b')
+            return NotImplemented
+        it = Interp(repo, hooks={'call': call_hook, 'expr': expr_hook})
+        nsol = ts72.NUM_SOLS[(kind, static)]
+        Ys = [Arr(f'ysurf{s}', default=lambda k, s=s: X.atom(f'Y[{s}][{k}]', 'complex')) for s in range(nsol)]
+        bc = Arr('bc', default=lambda k: X.atom(f'bc[{k}]'))
+        args = {'y_solutions_at_surface': Ys, 'surface_boundary_condition': bc, 'gravity_at_surface': g, 'G_to_use': G}
+        kw = {}
+        for a in f.args.args:
+            if a.arg not in args:
+                raise AnalysisError(f'{mod.where(f)}: unexpected parameter {a.arg}')
+            kw[a.arg] = args[a.arg]
+        it.call(mod, f, [], kw)
+        where = mod.where(f)
+        inst = f'legacy surface_condition.{fname}'
+        if len(solved) != 1:
+            chk.ob(rule, inst + ': one linear solve inv(M) @ b', False, f'{len(solved)} solves seen', where); continue
+        M, b = solved[0]
+        if kind == 'solid':
+            rhs = [bc.get(0), bc.get(1), bc.get(2)]
+        elif not static:
+            rhs = [bc.get(0), bc.get(2)]
+        else:
+            rhs = None
+        bad = []
+        rows = [list(r) for r in M] if isinstance(M, (tuple, list)) else None
+        if rows is None or len(rows) != len(comps) or any(len(r) != nsol for r in rows):
+            bad.append('matrix is not %dx%d' % (len(comps), nsol))
+        else:
+            for i, c in enumerate(comps):
+                for s in range(nsol):
+                    if not d.equal(rows[i][s], Ys[s].get(slot[(kind, static)][c])):
+                        bad.append(f'M[row {c}, solution {s}] = {X.show(X.lift(rows[i][s]))[:30]}')
+            bvals = [b.get(i) if isinstance(b, Arr) else b[i] for i in range(len(comps))]
+            if rhs is not None:
+                for i, c in enumerate(comps):
+                    if not d.equal(bvals[i], rhs[i]): bad.append(f'rhs[{c}] = {X.show(X.lift(bvals[i]))[:40]}')
+            else:
+                # y7 = y6 + (4 pi G / g) y2 : linear in (bc[0], bc[2]) with coefficient ratio 4 pi G / g; pi enters as numpy's constant
+                c2 = X.subst(X.lift(bvals[0]), {'bc[0]': X.ZERO, 'bc[2]': X.ONE}); c0 = X.subst(X.lift(bvals[0]), {'bc[0]': X.ONE, 'bc[2]': X.ZERO})
+                pis = [a_ for a_ in X.atoms_of(c0) if a_.val[0] in ('pi', 'const_pi', 'np.pi')]
+                piv = pis[0] if pis else X.atom('pi', 'pos')
+                if not d.equal(c2, X.ONE) or not d.equal(c0, 4 * piv * G / g) or not d.equal(X.lift(bvals[0]), c0 * bc.get(0) + c2 * bc.get(2)):
+                    bad.append(f'rhs[y7] = {X.show(X.lift(bvals[0]))[:60]} (expected bc[2] + (4 pi G / g) bc[0])')
+        chk.ob(rule, inst + f': solves sum_s C_s {comps}(solution s) = requested values', not bad, '; '.join(bad[:4]), where, key=f'{rule}|{inst}', method='interpretation with the linear solve captured + GF(p^2) PIT')
+
+
+# ---------------------------------------------------------------------------------------------- non-dimensionalisation, Love numbers, driver fragments
+def nondimensional(chk, repo, d, rule):
+    """legacy nondimensional.py: conversions are the unit system (L = R, T^2 = 1/(pi G rho_bulk), M = rho_bulk R^3), re(non(x)) == x, and slot k of the
+    radial functions is multiplied by the unit of y_k (y1,y3: s^2/m; y2,y4: kg/m^3; y5: 1; y6: 1/m)"""
+    mod = repo.by_path('TidalPy/radial_solver/nondimensional.py')
+    fn = need_func(mod, 'non_dimensionalize_physicals'); fr_ = need_func(mod, 're_dimensionalize_physicals'); fy = need_func(mod, 're_dimensionalize_radial_func')
+    it = Interp(repo)
+    R = X.atom('R_mean', 'pos'); rb = X.atom('rho_bulk', 'pos')
+    vals = {'radius': X.atom('r', 'pos'), 'gravity': X.atom('g', 'pos'), 'density': X.atom('rho', 'pos'), 'shear_modulus': X.atom('mu', 'complex'),
+            'bulk_modulus': X.atom('K', 'pos'), 'frequency': X.atom('w', 'pos')}
+    order = ['radius', 'gravity', 'density', 'shear_modulus', 'bulk_modulus', 'frequency']
+    out = it.call(mod, fn, [vals[k] for k in order], {'mean_radius': R, 'bulk_density': rb})
+    if not (isinstance(out, tuple) and len(out) == 7):
+        raise AnalysisError(f'{mod.where(fn)}: non_dimensionalize_physicals does not return 7 values')
+    Gc = X.lift(it.global_name(mod, 'G')); pi_v = None
+    # recover the module's pi from the expression of the frequency conversion: T2 = 1/(pi G rho_bulk)
+    np_pi = [a_ for a_ in X.atoms_of(out[5]) if 'pi' in a_.val[0]]
+    piv = np_pi[0] if np_pi else X.atom('pi', 'pos')
+    T2 = 1 / (piv * Gc * rb); L = R; M = rb * R ** 3
+    dpos = X.Decider(seed=7, k=3, positive=[T2])
+    unit = {'radius': L, 'gravity': L / T2, 'density': M / L ** 3, 'shear_modulus': M / (L * T2), 'bulk_modulus': M / (L * T2), 'frequency': 1 / X.sqrt(T2)}
+    where = mod.where(fn)
+    for k, name in enumerate(order):
+        ok = dpos.equal(out[k], vals[name] / unit[name])
+        chk.ob(rule, f'legacy non_dimensionalize_physicals: {name} is divided by its unit in (L = R, T^2 = 1/(pi G rho_bulk), M = rho_bulk R^3)', ok, '' if ok else dpos.describe(out[k], vals[name] / unit[name]), where,
+               key=f'{rule}|legacy nondim|{name}', method='GF(p^2) PIT')
+    ok = dpos.equal(out[6], Gc / (L ** 3 / (M * T2)))
+    chk.ob(rule, 'legacy non_dimensionalize_physicals: G is divided by L^3 / (M T^2)', ok, '' if ok else dpos.describe(out[6], Gc / (L ** 3 / (M * T2))), where, key=f'{rule}|legacy nondim|G', method='GF(p^2) PIT')
+    back = it.call(mod, fr_, list(out[:6]), {'mean_radius': R, 'bulk_density': rb})
+    for k, name in enumerate(order):
+        ok = isinstance(back, tuple) and len(back) == 6 and dpos.equal(back[k], vals[name])
+        chk.ob(rule, f'legacy re_dimensionalize_physicals(non_dimensionalize_physicals(x)) == x: {name}', ok, 'round trip is not the identity', mod.where(fr_), key=f'{rule}|legacy roundtrip|{name}', method='GF(p^2) PIT')
+    yp = Arr('tidal_y_prime', default=lambda k: X.atom(f'yprime{k + 1}', 'complex'))
+    yo = it.call(mod, fy, [yp, R, rb])
+    yunit = [T2 / L, M / L ** 3, T2 / L, M / L ** 3, X.ONE, 1 / L]
+    bad = []
+    for k in range(6):
+        gv = yo.store.get(k) if isinstance(yo, Arr) else None
+        if gv is None or not dpos.equal(gv, yp.get(k) * yunit[k]):
+            bad.append(f'y{k + 1}')
+    chk.ob(rule, 'legacy re_dimensionalize_radial_func: y_k is multiplied by the unit of y_k (s^2/m, kg/m^3, s^2/m, kg/m^3, 1, 1/m)', not bad, f'wrong factor for {bad}', mod.where(fy),
+           key=f'{rule}|legacy redim y', method='GF(p^2) PIT')
+
+
+def love(chk, repo, d, rule):
+    mod = repo.by_path('TidalPy/radial_solver/love.py')
+    f = need_func(mod, 'find_love')
+    it = Interp(repo)
+    ys = Arr('surface', default=lambda k: X.atom(f'ysurf{k + 1}', 'complex'))
+    g = X.atom('g_surf', 'pos')
+    out = it.call(mod, f, [ys, g])
+    ok = isinstance(out, tuple) and len(out) == 3 and d.equal(out[0], ys.get(4) - 1) and d.equal(out[1], g * ys.get(0)) and d.equal(out[2], g * ys.get(2))
+    chk.ob(rule, 'legacy find_love: (k, h, l) == (y5 - 1, g y1, g y3) of the surface values', ok, 'differs', mod.where(f), key=f'{rule}|legacy find_love', method='GF(p^2) PIT')
+
+
+def driver_bc(chk, repo, d, rule):
+    """boundary-condition fragments of the legacy driver: tidal (0, 0, (2l+1)/R), loading (-(2l+1) rho_bulk/3, 0, (2l+1)/R); R = 1, rho_bulk = 1 when non-dimensional"""
+    from ..core.interp import Frame, Builtin
+    mod = repo.by_path('TidalPy/radial_solver/numerical/solver.py')
+    f = need_func(mod, 'radial_solver')
+    l = X.atom('l', 'pos'); R = X.atom('R_planet', 'pos'); rb = X.atom('rho_bulk', 'pos')
+    radius = Arr('radius', default=lambda k: R)
+    found = {}
+    for n in ast.walk(f):
+        if isinstance(n, ast.Assign) and len(n.targets) == 1 and isinstance(n.targets[0], ast.Name) and isinstance(n.value, ast.Call) \
+                and ast.unparse(n.value.func) in ('np.zeros', 'numpy.zeros') and n.value.args and isinstance(n.value.args[0], ast.Constant) and n.value.args[0].value == 3:
+            found[n.targets[0].id] = n
+    # the statement following each allocation is the `if nondimensionalize:` that fills it
+    def filler(alloc):
+        parent_bodies = [b for nd in ast.walk(f) for b in (getattr(nd, 'body', None), getattr(nd, 'orelse', None)) if isinstance(b, list)]
+        for body in parent_bodies:
+            for i, st in enumerate(body):
+                if st is alloc and i + 1 < len(body) and isinstance(body[i + 1], ast.If):
+                    return body[i + 1]
+        return None
+    it = Interp(repo)
+    seen = 0
+    for name, alloc in found.items():
+        fl = filler(alloc)
+        if fl is None:
+            continue
+        for nd in (False, True):
+            fr = Frame(mod, 'radial_solver')
+            bc = Arr(name, default=lambda k: X.ZERO)
+            fr.vars.update({name: bc, 'order_l': l, 'radius': radius, 'planet_bulk_density': rb, 'nondimensionalize': nd, 'planet_radius': R})
+            try:
+                it.exec(fl, fr)
+            except AnalysisError as ex:
+                raise AnalysisError(f'{mod.where(fl)}: boundary-condition fragment could not be interpreted: {ex}')
+            got = [bc.get(k) for k in range(3)]
+            Ruse = X.ONE if nd else R; rbuse = X.ONE if nd else rb
+            tidal = [X.ZERO, X.ZERO, (2 * l + 1) / Ruse]; load = [-(2 * l + 1) * rbuse / 3, X.ZERO, (2 * l + 1) / Ruse]
+            is_load = 'load' in name
+            ref = load if is_load else tidal
+            ok = all(d.equal(got[k], ref[k]) for k in range(3))
+            seen += 1
+            chk.ob(rule, f'legacy driver: {name} ({"non-dimensional" if nd else "dimensional"}) == ' + ('(-(2l+1) rho_bulk / 3, 0, (2l+1)/R)' if is_load else '(0, 0, (2l+1)/R)'), ok,
+                   f'values {[X.show(g_)[:30] for g_ in got]}', mod.where(fl), key=f'{rule}|legacy bc|{name}|{nd}', method='fragment interpretation + GF(p^2) PIT')
+    if seen < 4:
+        raise AnalysisError(f'{mod.where(f)}: boundary-condition vectors of the legacy driver not found ({seen} of 4 fragments)')
+
+
+def initial_dispatch(chk, repo, d, rule):
+    """find_initial_guess(is_solid, is_static, is_incompressible, is_kamata, ...) returns what the function of that (kind, assumption, family) returns on the same arguments"""
+    from ..core.interp import FuncRef, RaiseSignal
+    mi = repo.by_path('TidalPy/radial_solver/numerical/initial/__init__.py')
+    f = need_func(mi, 'find_initial_guess')
+    calls = []
+
+    def call_hook(itp, fn_, args, kwargs, e, fr):
+        if isinstance(fn_, FuncRef) and fr.fname == 'find_initial_guess' and fn_.mod.name.startswith('TidalPy.radial_solver.numerical.initial.initial_solution'):
+            params = [a.arg for a in fn_.node.args.args]
+            bound = dict(zip(params, args)); bound.update(kwargs)
+            calls.append((fn_, bound))
+            return ('result-of', fn_.mod.name.split('.')[-1], fn_.node.name)
+        return NotImplemented
+    it = Interp(repo, hooks={'call': call_hook})
+    vals = {'radius': X.atom('r', 'pos'), 'shear_modulus': X.atom('mu', 'complex'), 'bulk_modulus': X.atom('K', 'pos'), 'density': X.atom('rho', 'pos'), 'frequency': X.atom('w', 'pos'),
+            'order_l': X.atom('l', 'pos'), 'G_to_use': X.atom('G', 'pos')}
+    for solid in (True, False):
+        for static in (False, True):
+            for incomp in (False, True):
+                for kamata in (True, False):
+                    calls.clear()
+                    lab = f'legacy find_initial_guess(is_solid={solid}, is_static={static}, is_incompressible={incomp}, is_kamata={kamata})'
+                    try:
+                        r = it.call(mi, f, [solid, static, incomp, kamata, vals['radius'], vals['shear_modulus'], vals['bulk_modulus'], vals['density'], vals['frequency']],
+                                    {'order_l': vals['order_l'], 'G_to_use': vals['G_to_use']})
+                    except RaiseSignal:
+                        chk.note_analysed('legacy find_initial_guess combinations that raise', lab); continue
+                    ok = len(calls) == 1 and isinstance(r, tuple) and r and r[0] == 'result-of'
+                    why = ''
+                    if ok:
+                        fn_, bound = calls[0]
+                        want_file = INIT_FILES[(static, incomp)][:-3]
+                        fam = 'kamata' if kamata else ('saito' if (not solid and static) else 'takeuchi')
+                        if not solid and static:
+                            fam = 'saito'
+                        okf = fn_.mod.name.split('.')[-1] == want_file and fn_.node.name.startswith('solid' if solid else 'liquid') and fam in fn_.node.name
+                        okb = all(bound.get(k) is vals[k] for k in bound if k in vals) and set(bound) == {a.arg for a in fn_.node.args.args}
+                        ok = okf and okb
+                        why = ('' if okf else f'selects {fn_.mod.name.split(".")[-1]}.{fn_.node.name}; ') + ('' if okb else 'arguments bound to the wrong parameters: ' + ', '.join(f'{k}={v!r}'[:40] for k, v in bound.items()))
+                    else:
+                        why = f'{len(calls)} starting functions called'
+                    chk.ob(rule, lab + ': the function of that layer kind, assumption set and family, each argument bound to the parameter of the same name', ok, why, mi.where(f),
+                           key=f'{rule}|{lab}', method='interpreted dispatch with recorded binding')
+
+
+# ---------------------------------------------------------------------------------------------- propagator (fundamental) matrices
+def fundamental(chk, repo, rule, seed, tier):
+    """matrix/fundamental_solid.py returns (Y, Y^-1, A) per shell for an incompressible static solid.  Decided as identities in (r, mu, rho, g[, l]):
+    Y * Yinv == I, and dY/dr == A * Y when gravity is that of the homogeneous sphere the closed forms assume... the latter only where g enters through rho g r terms
+    that the SVC16 solution treats as constant per shell -- so only  Y Yinv == I  and  the l = 2 special case == the generic function at l = 2  are claimed."""
+    mod = repo.by_path('TidalPy/radial_solver/matrix/fundamental_solid.py')
+    f2 = need_func(mod, 'fundamental_matrix_orderl2'); fg = need_func(mod, 'fundamental_matrix_generic')
+
+    def expr_hook(itp, e, fr):
+        if isinstance(e, ast.Subscript) and isinstance(e.value, ast.Attribute) and e.value.attr == 'shape':
+            return 1
+        # np.ones(num_shells) / np.zeros(num_shells): a per-shell vector, one element in the collapsed reading
+        if isinstance(e, ast.Call) and ast.unparse(e.func) in ('np.ones', 'np.zeros') and e.args and isinstance(e.args[0], ast.Name) and e.args[0].id == 'num_shells':
+            return X.ONE if e.func.attr == 'ones' else X.ZERO
+        return NotImplemented
+    it = Interp(repo, hooks={'expr': expr_hook, 'drop_full_slices': True})
+    r = X.atom('r', 'pos'); mu = X.atom('mu', 'complex'); rho = X.atom('rho', 'pos'); g = X.atom('g', 'pos')
+    d = X.Decider(seed=seed + 31, k=2 if tier == 'quick' else 5)
+
+    def mats(f, **kw):
+        out = it.call(mod, f, [r, mu, rho, g], kw)
+        if not (isinstance(out, tuple) and len(out) == 3 and all(isinstance(o, Arr) for o in out)):
+            raise AnalysisError(f'{mod.where(f)}: does not return (fundamental, inverse, derivative) matrices')
+        def M(a): return [[a.get((i, j)) for j in range(6)] for i in range(6)]
+        return M(out[0]), M(out[1]), M(out[2])
+    cases = [('fundamental_matrix_orderl2', f2, {}, 2)] + [(f'fundamental_matrix_generic(order_l={lv})', fg, {'order_l': lv}, lv) for lv in ((2, 3) if tier == 'quick' else (2, 3, 4, 7))]
+    store = {}
+    for name, f, kw, lv in cases:
+        Y, Yi, A = mats(f, **kw)
+        store[name] = (Y, Yi, A)
+        bad = []
+        for i in range(6):
+            for j in range(6):
+                acc = X.ZERO
+                for k in range(6):
+                    acc = acc + X.lift(Y[i][k]) * X.lift(Yi[k][j])
+                if not d.equal(acc, X.ONE if i == j else X.ZERO):
+                    bad.append(f'({i},{j})')
+        chk.ob(rule, f'legacy {name}: fundamental matrix times its stated inverse is the identity', not bad, f'entries of Y Yinv - I that do not vanish: {bad[:8]}', mod.where(f),
+               key=f'{rule}|legacy {name}|inverse', method='GF(p^2) PIT (36 entries)')
+    # the conversion block of propagate.py (SVC16 convention -> TS72 convention) defines how the propagator's unknowns relate to y1..y6
+    conv, rows, bcv, mp_ = propagate_conventions(repo, it_plain=Interp(repo, hooks={'drop_full_slices': True}))
+    P = SM.params(); lsym3 = None
+    for name, f, kw, lv in cases:
+        Y, Yi, A = store[name]
+        P = SM.params(); P['l'] = X.const(lv)
+        Gc = X.lift(it.global_name(mod, 'G')); piv = X.atom('pi', 'pos')
+        P['fpG'] = 4 * piv * Gc
+        P['r'] = r; P['mu'] = mu; P['rho'] = rho; P['g'] = g
+        yref = [X.atom(f'Y{k}', 'complex') for k in range(6)]
+        ref = ts72.reference_rhs('solid', True, True, yref, P)
+        bad = []
+        for i_ in range(6):
+            for j_ in range(6):
+                sub = {f'Y{k}': (X.ONE if k == j_ else X.ZERO) for k in range(6)}
+                rij = X.subst(ref[i_], sub)
+                (si, ss), (sj, sjs) = conv[i_], conv[j_]
+                got = X.lift(A[si][sj]) * ss * sjs
+                if not d.equal(got, rij):
+                    bad.append(f'd{ts72.LAYOUT[("solid", True)][i_]}<-{ts72.LAYOUT[("solid", True)][j_]}')
+        chk.ob(rule, f'legacy {name}: derivative matrix, read through the SVC16->TS72 conversion of propagate.py, == the static incompressible solid reference system', not bad,
+               f'entries differ: {bad[:8]}', mod.where(f), key=f'{rule}|legacy {name}|derivative', method='GF(p^2) PIT (36 entries)')
+        # columns solve dy/dr = A y in a homogeneous sphere
+        gex = 4 * piv * Gc * rho / 3 * r
+        Yu = [[X.subst(X.lift(Y[i_][j_]), {'g': gex}) for j_ in range(6)] for i_ in range(6)]
+        Au = [[X.subst(X.lift(A[i_][j_]), {'g': gex}) for j_ in range(6)] for i_ in range(6)]
+        bad = []
+        for i_ in range(6):
+            for j_ in range(6):
+                acc = X.ZERO
+                for k in range(6):
+                    acc = acc + Au[i_][k] * Yu[k][j_]
+                if not d.equal(X.diff(Yu[i_][j_], 'r'), acc):
+                    bad.append(f'({i_},{j_})')
+        chk.ob(rule, f'legacy {name}: every column of the fundamental matrix solves dy/dr = A y in a homogeneous sphere (g = 4 pi G rho r / 3)', not bad, f'entries of dY/dr - A Y that do not vanish: {bad[:8]}',
+               mod.where(f), key=f'{rule}|legacy {name}|solves', method='symbolic differentiation + GF(p^2) PIT (36 entries)')
+    # surface condition of the propagator: constrained rows and requested values, converted, are (y2, y4, y6) = (0, 0, (2l+1)/R)
+    names6 = ts72.LAYOUT[('solid', True)]
+    lS = X.atom('l', 'pos'); RS = X.atom('R_world', 'pos')
+    want = {'y2': X.ZERO, 'y4': X.ZERO, 'y6': (2 * lS + 1) / RS}
+    bad = []
+    got_comp = {}
+    for row, b in zip(rows, bcv):
+        ks = [k for k in range(6) if conv[k][0] == row]
+        if len(ks) != 1:
+            bad.append(f'row {row} is not a converted component'); continue
+        k = ks[0]
+        got_comp[names6[k]] = X.lift(b) * conv[k][1]
+    for c_, v in want.items():
+        if c_ not in got_comp: bad.append(f'{c_} is not constrained at the surface')
+        elif not d.equal(got_comp[c_], v): bad.append(f'{c_} = {X.show(got_comp[c_])[:40]}')
+    chk.ob(rule, 'legacy propagate: surface condition, read through its own convention conversion, is (y2, y4, y6) = (0, 0, (2l+1)/R)', not bad and len(got_comp) == 3, '; '.join(bad), mp_[1],
+           key=f'{rule}|legacy propagate|surface', method='fragment interpretation + GF(p^2) PIT')
+    Y2, Yi2, A2 = store['fundamental_matrix_orderl2']; Yg, Yig, Ag = store['fundamental_matrix_generic(order_l=2)']
+    for nm, a, b in (('fundamental matrix', Y2, Yg), ('inverse', Yi2, Yig), ('derivative matrix', A2, Ag)):
+        bad = [f'({i},{j})' for i in range(6) for j in range(6) if not d.equal(X.lift(a[i][j]), X.lift(b[i][j]))]
+        chk.ob(rule, f'legacy fundamental_matrix_orderl2 == fundamental_matrix_generic at l = 2: {nm}', not bad, f'entries differ: {bad[:8]}', mod.where(f2),
+               key=f'{rule}|legacy fundamental l2 vs generic|{nm}', method='GF(p^2) PIT (36 entries)')
+
+
+def propagate_conventions(repo, it_plain):
+    """from matrix/propagate.py: (conv, rows, bc, (mod, where)) with conv[k] = (index in the SVC16 vector, sign) of TS72 component k,
+    rows = SVC16 rows constrained at the surface, bc = the values they are set to (order_l -> l, world_radius -> R_world)"""
+    from ..core.interp import Frame
+    mod = repo.by_path('TidalPy/radial_solver/matrix/propagate.py')
+    f = need_func(mod, 'propagate')
+    ret = [n for n in ast.walk(f) if isinstance(n, ast.Return) and isinstance(n.value, ast.Name)]
+    if not ret:
+        raise AnalysisError(f'{mod.where(f)}: propagate does not return a named array')
+    yname = ret[-1].value.id
+    stores = [n for n in f.body if isinstance(n, ast.Assign) and isinstance(n.targets[0], ast.Subscript) and isinstance(n.targets[0].value, ast.Name) and n.targets[0].value.id == yname]
+    if len(stores) != 6:
+        raise AnalysisError(f'{mod.where(f)}: expected six conversion stores into `{yname}`, found {len(stores)}')
+    srcs = {n_.value.id for st in stores for n_ in ast.walk(st.value) if isinstance(n_, ast.Subscript) and isinstance(n_.value, ast.Name)}
+    if len(srcs) != 1:
+        raise AnalysisError(f'{mod.where(f)}: conversion stores read from {sorted(srcs)}')
+    src = list(srcs)[0]
+    fr = Frame(mod, 'propagate')
+    ysv = Arr(src, default=lambda k: X.atom(f'ysv{k}', 'complex')); yo = Arr(yname)
+    fr.vars.update({src: ysv, yname: yo})
+    for st in stores:
+        it_plain.exec(st, fr)
+    dd = X.Decider(seed=5, k=2)
+    conv = {}
+    for k in range(6):
+        v = yo.store.get(k)
+        if v is None:
+            raise AnalysisError(f'{mod.where(f)}: component {k} of the converted solution is never written')
+        hit = [(j, sg) for j in range(6) for sg in (1, -1) if dd.equal(v, sg * ysv.get(j))]
+        if len(hit) != 1:
+            raise AnalysisError(f'{mod.where(stores[k])}: converted component {k} is not +/- one component of the SVC16 vector')
+        conv[k] = hit[0]
+    # surface rows: np.vstack((M[a, :, -1], M[b, :, -1], M[c, :, -1]))
+    rows = None
+    for n in ast.walk(f):
+        if isinstance(n, ast.Call) and ast.unparse(n.func) in ('np.vstack', 'numpy.vstack') and n.args and isinstance(n.args[0], ast.Tuple):
+            rr = []
+            for e_ in n.args[0].elts:
+                if isinstance(e_, ast.Subscript) and isinstance(e_.slice, ast.Tuple) and isinstance(e_.slice.elts[0], ast.Constant):
+                    rr.append(e_.slice.elts[0].value)
+            if len(rr) == 3: rows = rr
+    if rows is None:
+        raise AnalysisError(f'{mod.where(f)}: surface matrix (np.vstack of three rows) not found')
+    # requested values: the 3-vector allocated with np.zeros((3,)) and filled by subscript stores
+    bcname = None
+    for n in f.body:
+        if isinstance(n, ast.Assign) and isinstance(n.targets[0], ast.Name) and isinstance(n.value, ast.Call) and ast.unparse(n.value.func) in ('np.zeros', 'numpy.zeros') \
+                and ast.unparse(n.value.args[0]).replace(' ', '') in ('(3,)', '3'):
+            bcname = n.targets[0].id
+    if bcname is None:
+        raise AnalysisError(f'{mod.where(f)}: surface condition vector not found')
+    bc = Arr(bcname, default=lambda k: X.ZERO)
+    fr2 = Frame(mod, 'propagate'); fr2.vars.update({bcname: bc, 'order_l': X.atom('l', 'pos'), 'world_radius': X.atom('R_world', 'pos')})
+    for n in f.body:
+        if isinstance(n, ast.Assign) and isinstance(n.targets[0], ast.Subscript) and isinstance(n.targets[0].value, ast.Name) and n.targets[0].value.id == bcname:
+            it_plain.exec(n, fr2)
+    return conv, rows, [bc.get(k) for k in range(3)], (mod, mod.where(f))
